@@ -182,7 +182,7 @@ func (v *Verifier) load(st *State, addr *Term, t types.Type) *Term {
 	if st2, ok := v.D.structs[s]; ok {
 		var fs []*Term
 		for i := 0; i < st2.NumFields(); i++ {
-			fs = append(fs, v.load(st, pFld(addr, i), st2.Field(i).Type()))
+			fs = append(fs, v.load(st, v.D.fieldPtr(addr, s, i), st2.Field(i).Type()))
 		}
 		return v.D.structMake(s, fs)
 	}
@@ -203,7 +203,7 @@ func (v *Verifier) store(st *State, addr *Term, t types.Type, val *Term) {
 	s := v.D.sortOf(t)
 	if st2, ok := v.D.structs[s]; ok {
 		for i := 0; i < st2.NumFields(); i++ {
-			v.store(st, pFld(addr, i), st2.Field(i).Type(), v.D.structProj(val, st2, i))
+			v.store(st, v.D.fieldPtr(addr, s, i), st2.Field(i).Type(), v.D.structProj(val, st2, i))
 		}
 		return
 	}
@@ -229,7 +229,7 @@ func (v *Verifier) leaves(addr *Term, t types.Type) []leaf {
 	if st2, ok := v.D.structs[s]; ok {
 		var out []leaf
 		for i := 0; i < st2.NumFields(); i++ {
-			out = append(out, v.leaves(pFld(addr, i), st2.Field(i).Type())...)
+			out = append(out, v.leaves(v.D.fieldPtr(addr, s, i), st2.Field(i).Type())...)
 		}
 		return out
 	}
